@@ -54,7 +54,7 @@ pub fn run_case(rng: &mut crate::prng::Rng, rep: &mut Report) {
         stall_ack_stale_ms: *rng.pick(&[500, 1000, 3000]),
         conn_timeout_ms: timeout,
     };
-    let opts = StreamOpts { n_links: 2 + rng.usize_below(3), cfg: sc, ticks: 0, probing: rng.chance(1, 2), faults: Faults::None, retransmit_pct: 3, control_pct: 3, critical_windows: false, big_jumps: false, initial_windows: None, loss_permille: 0, stall_min_in_flight_small: true, echo_fuzz: false, rate_pct: 100 };
+    let opts = StreamOpts { n_links: 2 + rng.usize_below(3), cfg: sc, ticks: 0, probing: rng.chance(1, 2), faults: Faults::None, retransmit_pct: 3, control_pct: 3, critical_windows: false, big_jumps: false, initial_windows: None, loss_permille: 0, stall_min_in_flight_small: true, echo_fuzz: false, rate_pct: 100, short_sends: false };
     let want_sample = rep.wants_sample();
     if let Some(desc) = run_schedule(opts, rng, rep)
         && want_sample
